@@ -27,7 +27,11 @@ OnCall(st, e, n) ==
                          !.odsize = e.odsize, !.dist = FALSE, !.expTO = FALSE, !.busy = TRUE])
 
 OnX(st, e, od, data) ==
-    LET j == SrvJudge(st.sv, st.buf, od, st.store, e.q, e.r) IN
+    LET forced == e.fault \in {"abort", "refuse"}
+        \* a forced abort: the server refuses the request without executing it
+        j == IF forced THEN [ok |-> Len(e.r) = 1 /\ IsAbort(e.r[1]), why |-> "forced abort is not an abort frame",
+                             sv |-> SrvIdle, buf |-> <<>>, store |-> st.store, wcb |-> <<>>, free |-> FALSE]
+             ELSE SrvJudge(st.sv, st.buf, od, st.store, e.q, e.r) IN
     IF ~st.busy THEN Bad(st, "frame emitted outside a call")
     ELSE IF ~IsFrame8(e.q) THEN Bad(st, "client frame is not 8 bytes")
     ELSE IF ~j.ok THEN Bad(st, "HARNESS: reference server response rejected: " \o j.why)
